@@ -4,6 +4,7 @@ import (
 	"fmt"
 	"go/types"
 	"math"
+	"net"
 	"math/big"
 	"runtime"
 	"strings"
@@ -373,6 +374,17 @@ func (eng *Engine) registerIntrinsics() {
 		return mkBool(math.Signbit(args[0].(Float).F))
 	}
 
+	in["net.ParseIP"] = func(e *Exec, fr *frame, fn *ssa.Function, args []Value) Value {
+		ip := net.ParseIP(strArg(e, fr, args[0]))
+		if ip == nil {
+			return Slice{nil: true}
+		}
+		v := make([]Value, len(ip))
+		for i, b := range ip {
+			v[i] = byteConsts[b]
+		}
+		return Slice{v: v}
+	}
 	registerFmt(in)
 	registerTime(in)
 	registerStrconv(in)
